@@ -1,6 +1,6 @@
 """C04 - decoders and parsers are total and memory safe on arbitrary input (DESIGN.md section 4, C04)."""
 from sa import rules as RU
-from sa.awslib import AwsHooks, in_bounds, ASSUMPTIONS as LIB_ASSUMPTIONS
+from sa.awslib import AwsHooks, in_bounds, MEMFNS as MEMFNS_, ASSUMPTIONS as LIB_ASSUMPTIONS
 from sa.bounds import access_sites, addr_size, EntryExtents
 from sa.cfg import dominators, ev_dominates, edges
 from sa.extract import library_units
@@ -9,6 +9,7 @@ from sa.rules import argstr, where
 
 DECIDED = [
     "BOUND: every explicit read of input bytes and every write into an output buffer in the library's own parsers (XML, URI, date-time, hex/base64/UTF-8, UUID, host utils, unsigned-integer parsing) is inside the input view / output storage for every input (NUM); a pointer difference converted to an unsigned length that could be negative leaves the following accesses unproved and is reported there",
+    "CSTR: a local character array handed to a C-string consumer (sscanf / strtol / strlen ...) is NUL-terminated for every input: zero-initialised, every copy into it stops before its last byte (NUM), and its address goes to no other callee",
     "PROGRESS: every input-driven loop either leaves or strictly moves a cursor/index on every path through its body",
     "RECUR: every recursion reachable from a parser entry point carries a depth counter tested against a limit",
     "ERRCHAN: every `return AWS_OP_ERR` of an int-returning parser function follows aws_raise_error or the failure of a callee that raised",
@@ -17,6 +18,8 @@ DECIDED = [
     "AVX-SHELL: the 32-byte loads/stores and bounce-buffer copies of the vectorised base64 codec's scalar shell are inside the caller's buffers (rule shared with C05)",
     "WRAPPER: JSON text is parsed from a NUL-terminated private copy that is destroyed on every path; every public CBOR decode entry tests the sticky error first and consumes exactly the bytes the stream decoder reports",
 ]
+from rules import cbor_stream as _cs
+DECIDED = DECIDED + list(_cs.DECIDED)
 NOT_DECIDED = ["internals of the vendored cJSON and libcbor (only their call sites and their nesting limits)", "content-dependent facts (which byte values occur where)", "libc calls (strtod, sscanf, strftime)"]
 ASSUMPTIONS = list(LIB_ASSUMPTIONS) + ["aws_byte_cursor_advance/advance_nospec succeed iff len <= cursor->len (C01)", "a real memory view is shorter than PTRDIFF_MAX (used only for PROGRESS)"]
 
@@ -177,6 +180,95 @@ DELEGATED = {"aws_query_string_next_param", "aws_byte_cursor_next_split", "aws_h
 ERRCHAN_OK = {"s_init_from_uri_str": "returns ERR exactly when a state function set ERROR, and each of them raises when it does (checked below)"}
 
 
+CSTR_CONSUMERS = {"sscanf": (0,), "strtol": (0,), "strtoul": (0,), "strtoll": (0,), "strtoull": (0,), "strtod": (0,), "atoi": (0,), "atol": (0,), "strlen": (0,),
+                  "strchr": (0,), "strrchr": (0,), "strstr": (0, 1), "strcmp": (0, 1), "strncmp": (), "strtok": (0,)}
+
+
+def _local_array(f, n):
+    """the local char array variable an argument decays from / None"""
+    x = RU.uncast(f, n)
+    while x is not None and x["k"] in ("decay", "cast"):
+        x = f.d(x["a"][0])
+    if x is not None and x["k"] == "var" and x.get("sc") == "local":
+        t = f.unit.types[x["t"]]
+        if t.get("arr") is not None and (t.get("esz") or 1) == 1:
+            return x["n"], t["arr"]
+    return None
+
+
+def cstr_terminated(R, P, fns, hooks):
+    """CSTR: a local character array handed to a C-string consumer (sscanf, strtol, strlen, ...) is NUL-terminated for
+    every input: it is zero-initialised, every copy into it ends at or before its last byte but one, every subscript store
+    stays below the last byte, and nothing else receives its address."""
+    from sa.bounds import std_states
+    n = 0
+    for f in fns:
+        arrays = {}
+        for e in f.calls(set(CSTR_CONSUMERS)):
+            for ai in CSTR_CONSUMERS[e.node["callee"]]:
+                la = _local_array(f, RU.arg(f, e.node, ai)) if ai < len(e.node["a"]) else None
+                if la:
+                    arrays.setdefault(la, []).append(e)
+        if not arrays:
+            continue
+        num, states, ex = std_states(P, f, hooks)
+        if ex is not None:
+            continue  # reported by BOUND
+        sites = access_sites(f)
+        for (name, size), uses in sorted(arrays.items()):
+            n += 1
+            inst = "%s:%s[%d]" % (f.name, name, size)
+            problems = []
+            # zero-initialised
+            zi = False
+            for b in f.blocks.values():
+                for el in b.elems:
+                    if el["k"] == "decl":
+                        for v in el["vars"]:
+                            if v["n"] == name and v.get("init") is not None:
+                                iv = f.d(v["init"])
+                                if iv is not None and (iv["k"] == "zeroinit" or (iv["k"] == "init" and all(f.is_const(a) == 0 for a in iv.get("a", [])) and (iv.get("filler") or len(iv.get("a", [])) >= size))):
+                                    zi = True
+            if not zi:
+                problems.append("the array is not zero-initialised")
+            writes = 0
+            for eid, kind, nd in sites:
+                if kind == "mem":
+                    dst = _local_array(f, nd["a"][0]) if nd.get("a") else None
+                    base_here = dst is not None and dst[0] == name
+                    if not base_here and not any(x["k"] == "var" and x.get("n") == name and x.get("sc") == "local" for x in f.walk(nd["a"][0], follow_refs=True)):
+                        continue
+                elif kind == "index":
+                    if not any(x["k"] == "var" and x.get("n") == name and x.get("sc") == "local" for x in f.walk(nd["a"][0], follow_refs=True)):
+                        continue
+                    store = any(el["k"] == "bin" and el["op"].endswith("=") and el["op"] not in ("==", "!=", "<=", ">=") and (f.d(el["a"][0]) or {}).get("id") == nd["id"] for b in f.blocks.values() for el in b.elems)
+                    if not store:
+                        continue
+                else:
+                    continue
+                for st in states.get(eid, []):
+                    s2 = st.copy()
+                    for (D, sz, mode) in addr_size(num, s2, kind, nd):
+                        if kind == "mem" and mode != "w":
+                            continue
+                        r = in_bounds(s2, D, sz)
+                        writes += 1
+                        if r[0] != "ok" or len(r) < 4:
+                            problems.append("%s: %s" % (f.show(nd)[:50], r[1]))
+                        elif not entails(s2, r[3] + sz - (size - 1)):
+                            problems.append("`%s` can fill the array up to its last byte (offset %r, size %r of %d): no terminating NUL is left for some input" % (f.show(nd)[:60], r[3], sz, size))
+            # the address goes nowhere else
+            for e in f.all_events():
+                if e.kind == "call" and e.node.get("callee") not in CSTR_CONSUMERS and e.node.get("callee") not in MEMFNS_:
+                    for a in e.node.get("a", []):
+                        la = _local_array(f, a)
+                        if la and la[0] == name:
+                            problems.append("passed to %s(), which may fill it" % (e.node.get("callee") or "an indirect callee"))
+            R.check(not problems and writes > 0, "CSTR", inst, where(f, uses[0]), "zero-initialised, and all %d write states leave the last byte untouched: NUL-terminated when %s reads it" % (writes, uses[0].node["callee"]),
+                    "a local buffer read as a C string by %s() is not NUL-terminated for every input: %s" % (uses[0].node["callee"], "; ".join(sorted(set(problems))[:3])))
+    R.require(n >= 3, "only %d local C-string buffers found (confirmed: host_utils copy, uuid cpy, date_time hour_str/min_str)" % n)
+
+
 def libc_table(fn, n):
     return any(x["k"] == "call" and (x.get("callee") or "").startswith("__ctype_") for x in fn.walk(n, follow_refs=True))
 
@@ -210,6 +302,10 @@ def analyse(ctx, replace=None, only=None, config="ship", hooks=None):
     """only (self-check runs): {"files": [...], "rules": [...]} restricts the sweep to the parser functions of those files
     and the whole-program rules to the named ones"""
     R = ctx.R
+    from rules import cbor_stream
+    if only and "stream" in only:
+        cbor_stream.stream_bounds(R, ctx.program(cbor_stream.UNITS, config, replace=replace))
+        return
     units = [u for u in library_units(ctx.ex.repo) if "external" not in u]
     P = ctx.program(units, config, replace=replace)
     fns = parser_functions(P)
@@ -300,6 +396,8 @@ def analyse(ctx, replace=None, only=None, config="ship", hooks=None):
             aborts(R, P, fns)
         if "WRAPPER" in want:
             wrappers(R, P)
+        if "CSTR" in want:
+            cstr_terminated(R, P, fns, hooks)
         return
     R.require(n_ok >= 120, "only %d parser bounds obligations discharged" % n_ok)
     R.require(req_seen == set(REQUIRES), "helpers with an assumed precondition but no checked call site: %s" % sorted(set(REQUIRES) - req_seen))
@@ -310,9 +408,13 @@ def analyse(ctx, replace=None, only=None, config="ship", hooks=None):
     errchan(R, P, fns)
     aborts(R, P, fns)
     wrappers(R, P)
+    cstr_terminated(R, P, fns, hooks)
     # the scalar shell of the vectorised base64 codec (bounds of its vector loads/stores and bounce buffers): rules/C05.py
     from rules import C05
     C05.avx_shell(R, P)
+    # the vendored CBOR item decoder underneath source/cbor.c: rules/cbor_stream.py
+    if hooks.__class__ is ParserHooks:
+        cbor_stream.stream_bounds(R, ctx.program(cbor_stream.UNITS, config, replace=replace))
 
 
 def recursion(R, P, fns, which=("self", "xml", "cjson")):
@@ -639,7 +741,11 @@ def wrappers(R, P):
                 "the source cursor advances by exactly result.read", "the source is not advanced by the number of bytes libcbor reports")
 
 
-MUTANTS = [
+MUTANTS = [dict(_m, scope={"stream": True}) for _m in _cs.MUTANTS] + [
+    {"name": "ipv4-copy-fills-whole-buffer", "file": "source/host_utils.c", "expect": "CSTR", "scope": {"files": ["source/host_utils.c"], "rules": ["CSTR"]},
+     "old": "    if (host.len > AWS_IPV4_STR_LEN - 1) {", "new": "    if (host.len > AWS_IPV4_STR_LEN) {"},
+    {"name": "uuid-copy-not-zeroed", "file": "source/uuid.c", "expect": "CSTR", "scope": {"files": ["source/uuid.c"], "rules": ["CSTR"]},
+     "old": "    char cpy[AWS_UUID_STR_LEN] = {0};", "new": "    char cpy[AWS_UUID_STR_LEN];"},
     {"name": "xml-end-search-from-doc-start", "file": "source/xml_parser.c", "expect": "BOUND",
      "old": "            memchr(next_location, '>', parser->doc.len - (size_t)(next_location - parser->doc.ptr));", "new": "            memchr(parser->doc.ptr, '>', parser->doc.len);"},
     {"name": "xml-end-search-whole-length", "file": "source/xml_parser.c", "expect": "BOUND",
